@@ -93,6 +93,33 @@ fn check(x: &[u8], y: &[u8], ms: i32, mm: i32, go: i32, ge: i32, warm: &[u8]) ->
         if got != a.score as i64 { return Err(format!("custom: path {:?} re-scores to {} but the reported score is {}", a.operations, got, a.score)); }
         let g = reference(&x, &y, msl, mml, gol, gel, 0);
         if (a.score as i64) < g { return Err(format!("custom with clips scores {} below the global optimum {}", a.score, g)); }
+        // reuse with distinct clip penalties: a mode call must not disturb a later custom() on the same aligner
+        {
+            let sc = || Scoring::from_scores(go, ge, ms, mm).xclip_prefix(-1).xclip_suffix(-2).yclip_prefix(-3).yclip_suffix(-4);
+            let mut fresh = Aligner::with_scoring(sc());
+            let mut used2 = Aligner::with_scoring(sc());
+            used2.local(&y, &x); used2.semiglobal(&x, &y); used2.global(&x, &x);
+            let (f, u) = (fresh.custom(&x, &y), used2.custom(&x, &y));
+            if f.score != u.score || f.operations != u.operations { return Err(format!("custom() after mode calls gives score {} / {:?}, a fresh aligner {} / {:?}", u.score, u.operations, f.score, f.operations)); }
+            let got = rescore(&f, &x, &y, msl, mml, gol, gel, [-1, -2, -3, -4]).map_err(|e| format!("custom (4 clips): {}", e))?;
+            if got != f.score as i64 { return Err(format!("custom (4 clips): path {:?} re-scores to {} but the reported score is {}", f.operations, got, f.score)); }
+        }
+        // asymmetric substitution function: global score against a reference DP with the same function
+        {
+            let f = |a: u8, b: u8| -> i32 { if a == b { ms } else if a < b { mm } else { mm - 3 } };
+            let mut al = Aligner::with_scoring(Scoring::new(go, ge, f));
+            let a = al.global(&x, &y);
+            let (m, n) = (x.len(), y.len());
+            let mut s_ = vec![vec![NEG; n + 1]; m + 1]; let mut ii = s_.clone(); let mut dd = s_.clone();
+            for i in 0..=m { for j in 0..=n {
+                if i > 0 { ii[i][j] = (s_[i - 1][j] + gol + gel).max(ii[i - 1][j] + gel); }
+                if j > 0 { dd[i][j] = (s_[i][j - 1] + gol + gel).max(dd[i][j - 1] + gel); }
+                let mut v = if i == 0 && j == 0 { 0 } else { NEG };
+                if i > 0 && j > 0 { v = v.max(s_[i - 1][j - 1] + f(x[i - 1], y[j - 1]) as i64); }
+                s_[i][j] = v.max(ii[i][j]).max(dd[i][j]);
+            } }
+            if a.score as i64 != s_[m][n] { return Err(format!("global with an asymmetric substitution function scores {}, optimum is {}", a.score, s_[m][n])); }
+        }
         let _ = MIN_SCORE;
         Ok(())
     }).and_then(|r| r)
